@@ -4,6 +4,7 @@ import (
 	"context"
 	"encoding/binary"
 	"fmt"
+	"os"
 	"strings"
 
 	"verif/mc"
@@ -102,6 +103,12 @@ func scenarios(prop string, thorough bool) []*Scenario {
 		// it anyway (or anything else)
 		r = append(r, &Scenario{Name: "full+txmanager/ready+block-requested-then-cancelled", Opt: netsim.Options{TxManager: true},
 			Prefix: append(append([]string{}, ready...), "!request-block1", "!cancel-block1"), Alphabet: alpha, Depth: pick(1, 2), oracle: oracleC14})
+		// other connections of the same process failed inside a message first (peer gone mid-payload,
+		// wrong checksum, undecodable payload): the examined connection must not notice
+		for _, kind := range []string{"truncated", "checksum", "undecodable"} {
+			r = append(r, &Scenario{Name: "full+txmanager/ready/after-failed-connections-" + kind, Opt: netsim.Options{TxManager: true}, Prefix: ready, Poison: kind,
+				Alphabet: []string{"ping", "addr[1]", "tx[tx0]", "protoconf", "inv[tx0]", "headers[block1]"}, Depth: 1, oracle: oracleC14})
+		}
 		// the same stream arriving in pieces (short reads): framing must not depend on how the bytes
 		// are delivered. 7 does not divide the 24-byte header; 1 is the extreme (without the 4 MiB letter).
 		for _, chunk := range []int{7, 1} {
@@ -286,6 +293,9 @@ func oracleC14(o *obs) []mc.Violation {
 	// a message from the middle of another one
 	if err := o.s.RunErr; err != nil && o.runBack {
 		msg := err.Error()
+		if os.Getenv("VERIF_DEBUG_RUNERR") != "" {
+			fmt.Fprintf(os.Stderr, "RUNERR %s | %v\n", msg, o.all)
+		}
 		for _, sign := range []string{"Wrong Network", "bad checksum", "Invalid command characters"} {
 			if strings.Contains(msg, sign) {
 				last := "?"
@@ -294,6 +304,22 @@ func oracleC14(o *obs) []mc.Violation {
 				}
 				vs = append(vs, fail(o, "desynchronised", letterClass(last)+"|"+strings.ReplaceAll(sign, " ", "-"),
 					fmt.Sprintf("after '%s' the node failed with %q: it parsed a message header from payload bytes", last, msg)))
+				break
+			}
+		}
+	}
+	// likewise the payload of every message the harness sends decodes: a decoding / short-read error
+	// means the node did not decode the message from its own first byte to its own last one
+	if err := o.s.RunErr; err != nil && o.runBack && len(vs) == 0 {
+		msg := err.Error()
+		for _, sign := range []string{"decode", "EOF", "payload"} {
+			if strings.Contains(msg, sign) {
+				last := "?"
+				if o.closedAt >= 0 && o.closedAt < len(o.all) {
+					last = o.all[o.closedAt]
+				}
+				vs = append(vs, fail(o, "well-formed-message-rejected", letterClass(last)+"|"+sign,
+					fmt.Sprintf("after '%s' the node failed with %q although every message sent was complete and well formed", last, msg)))
 				break
 			}
 		}
